@@ -466,3 +466,37 @@ Section WriterConforms.
       rewrite Hg. reflexivity.
   Qed.
 End WriterConforms.
+
+(* ================================================================ a decision procedure for ops_ok (non-vacuity examples) *)
+Definition lz_domb (mml : N) (r t : list N) : bool :=
+  negb (is_nil t) && forallb sym_okb t && (lenN r + lenN t + mml <? 2147483648).
+Definition seg_okb (mml g : N) (segs : list seg_in) (s : seg_in) : bool :=
+  (lenN (s_data s) <? two32) &&
+  (if g <? 16 then negb (existsb (N.eqb CONTIG_SEPARATOR) (s_data s))
+   else (lenN (s_data s) <? 2147483648) && forallb (fun s' => lz_domb mml (s_data s') (s_data s)) segs).
+Definition ops_okb (mml : N) (ops : list op) : bool :=
+  forallb (fun o : op => forallb (seg_okb mml (fst o) (GroupStore.segs_of ops (fst o))) (GroupStore.segs_of ops (fst o))) ops.
+
+Lemma ops_okb_ok : forall mml ops, ops_okb mml ops = true -> GroupStore_proofs.ops_ok ref_dom (lz_dom mml) ops.
+Proof.
+  intros mml ops H g s Hin.
+  assert (Hg : forallb (seg_okb mml g (GroupStore.segs_of ops g)) (GroupStore.segs_of ops g) = true).
+  { unfold GroupStore.segs_of in Hin. apply in_flat_map in Hin. destruct Hin as [o [Ho Hs]].
+    destruct (fst o =? g) eqn:E; [|destruct Hs]. apply N.eqb_eq in E.
+    unfold ops_okb in H. rewrite forallb_forall in H. specialize (H o Ho). rewrite E in H. exact H. }
+  rewrite forallb_forall in Hg. specialize (Hg s Hin). unfold seg_okb in Hg.
+  apply andb_true_iff in Hg. destruct Hg as [H1 H2]. apply N.ltb_lt in H1.
+  split; [exact H1|]. split.
+  - intros Hlt Hsep. apply N.ltb_lt in Hlt. rewrite Hlt in H2. apply negb_true_iff in H2.
+    assert (E : existsb (N.eqb CONTIG_SEPARATOR) (s_data s) = true)
+      by (apply existsb_exists; exists CONTIG_SEPARATOR; split; [exact Hsep | apply N.eqb_refl]).
+    rewrite E in H2. discriminate.
+  - intro Hge. assert (E : (g <? 16) = false) by (apply N.ltb_ge; exact Hge). rewrite E in H2.
+    apply andb_true_iff in H2. destruct H2 as [H2 H3]. split; [unfold ref_dom; apply N.ltb_lt; exact H2|].
+    intros s' Hs'. rewrite forallb_forall in H3. specialize (H3 s' Hs'). unfold lz_domb in H3.
+    apply andb_true_iff in H3. destruct H3 as [H3 H5]. apply andb_true_iff in H3. destruct H3 as [H3 H4].
+    unfold lz_dom. split; [|split].
+    + intro E0. rewrite E0 in H3. discriminate.
+    + apply Forall_forall. intros c Hc. rewrite forallb_forall in H4. exact (H4 c Hc).
+    + apply N.ltb_lt. exact H5.
+Qed.
